@@ -414,6 +414,11 @@ func (table *Table) Del(primaryKey []byte) error {
 	//copy row
 	delrow := *row
 	delrow.Ty = Del
+	if incache && row.old != nil {
+		// the cached row is a pending update of a saved row: the index entries
+		// in the database are those of the saved data, not of the new data
+		delrow.Data = row.old
+	}
 	table.addRowCache(&delrow)
 	return nil
 }
